@@ -116,19 +116,13 @@ def emit_param_str(
                 (
                     (
                         _fill(
-                            (_param["typ"] if _param.get("typ") else None)
+                            _param["typ"]
                             if name == "return_type"
-                            else "{name} :{typ}".format(
-                                name=name,
-                                typ=(
-                                    " {typ}".format(typ=_param["typ"])
-                                    if _param.get("typ")
-                                    else ""
-                                ),
-                            )
+                            else "{name} : {typ}".format(name=name, typ=_param["typ"])
                         )
                         if emit_type and _param.get("typ")
-                        else None
+                        # an entry whose type is not written still needs its name line
+                        else (None if name == "return_type" else name)
                     ),
                     (
                         _fill(
